@@ -193,6 +193,8 @@ H("c19_composite_delta_beyond_i16", "C19", "fontbe", "glyphs", flags=CHECKED_FLA
   bound="dx any finite f64 beyond the i16 range (|x| < 1e9)", oracle="stored delta within 0.5 of the input (known finding: it saturates)")
 H("c19_os2_apply_metrics", ["C19", "C04"], "fontbe", "os2", flags=CHECKED_FLAGS, funcs=["fontbe/src/os2.rs::apply_metrics"],
   bound="17 metrics, any f64 inside the range of their i16/u16 field", oracle="each OS/2 field == floor(own metric + 0.5)")
+H("c19_os2_metric_beyond_i16", "C19", "fontbe", "os2", flags=CHECKED_FLAGS, funcs=["fontbe/src/os2.rs::apply_metrics"],
+  bound="cap height any finite f64 beyond the i16 range (|x| < 1e9)", oracle="stored value within 0.5 of the metric (known finding: it saturates)")
 H("c19_width_class_total", "C19", "fontdrasil", "types", flags=CHECKED_FLAGS, funcs=["fontdrasil/src/types.rs::WidthClass::try_from"],
   bound="every u16", oracle="Ok iff 1..=9 with the value preserved; no panic (overflow checks on)")
 I2 = "fontir/src/ir.rs"
